@@ -59,7 +59,8 @@ def _store():
 
 def _cfg(c):
     import emd.sift as ES
-    cfg = ES.SiftConfig.__new__(ES.SiftConfig)
+    # built by the real constructor (whatever attributes it creates exist), then given the store of the unit
+    cfg = ES.SiftConfig('sift')
     cfg.store = _store()
     cfg.sift_type = 'sift'
     return cfg
@@ -250,6 +251,14 @@ def units(tier):
         def load_all(self, stream, Loader=None):
             return iter(copy.deepcopy(self.texts[self._read(stream)]))
 
+        # (ASSUMED: on PLAIN data - the only data this contract speaks about - the safe loaders read what the full loader reads; what they
+        #  do with python-specific tags such as nested tuples is outside the contract and left to the bounded stand-in)
+        def safe_load(self, stream):
+            return self.load(stream)
+
+        def safe_load_all(self, stream):
+            return self.load_all(stream)
+
     def mk_yaml(route, empty=False):
         def mk(c):
             cfg = ES.SiftConfig.__new__(ES.SiftConfig)
@@ -339,6 +348,26 @@ def units(tier):
         _obl(c, 'post:partial-of-the-named-variant', isinstance(r, functools.partial) and r.func is ES.mask_sift and r.args == ())
         _obl(c, 'post:all-options-bound', dict(r.keywords) == c.ghost['cfg'].store)
     U.append(Unit('get_func', SIFT, 'SiftConfig.get_func', mk_gf, post_gf, module=ES, wrap_call=call_gf))
+
+    # ---- get_func in a history: a callable is obtained, an option dictionary is then replaced wholesale and a scalar option is set, and a
+    # callable is obtained again - it binds the options as they are NOW
+    def call_gf2(f, c, a, kw):
+        import sys
+        f.__globals__['sys'] = sys
+        f.__globals__['functools'] = functools
+        f.__globals__['__name__'] = 'emd.sift'
+        cfg = a[0]
+        first = f(cfg)
+        c.ghost['first'] = (first.func, dict(first.keywords))
+        cfg.store['imf_opts'] = {'stop_method': 'rilling'}
+        cfg.store['max_imfs'] = 5
+        return f(cfg)
+
+    def post_gf2(c, a, kw, r):
+        _obl(c, 'post:partial-of-the-named-variant', isinstance(r, functools.partial) and r.func is ES.mask_sift and r.args == ())
+        _obl(c, 'post:binds-the-options-as-they-are-now', dict(r.keywords) == {'max_imfs': 5, 'imf_opts': {'stop_method': 'rilling'}}, 'bound %r' % (dict(r.keywords),))
+        _obl(c, 'post:the-first-callable-bound-the-options-of-its-time', c.ghost['first'] == (ES.mask_sift, {'max_imfs': 3, 'imf_opts': {'env_step_size': 0.5}}))
+    U.append(Unit('get_func[second callable after the options were replaced]', SIFT, 'SiftConfig.get_func', mk_gf, post_gf2, module=ES, wrap_call=call_gf2))
 
     # ---- get_config: defaults are those of the live signatures, and unpacking reaches the stage with the same effective arguments
     for variant in ('sift', 'mask_sift', 'ensemble_sift', 'complete_ensemble_sift'):
